@@ -266,7 +266,7 @@ Definition rd_readline (e : encfile) : encfile * list N :=
       | _ => (mkEF (ef_stream e) (mkRd (rd_bytes rd) (rd_chars rd) (Some more) (rd_ok rd)), l0)
       end
   | _ =>
-      let fuel := S (S (length (rest (ef_stream e)) + length (rd_chars rd))) in
+      let fuel := S (S (length (rest (ef_stream e)) + length (rd_chars rd) + length (rd_bytes rd))) in
       rl_loop fuel e [] 72
   end.
 
